@@ -340,4 +340,81 @@ theorem shift2_eq_d2 (rows : List (Row2 K)) (hM : rows2Mass rows ≠ 0) :
   ring
 
 end
+
+/-! ### the frame-shift model itself on dual numbers: the ε-parts of its outputs are the derivative
+    of the map, i.e. what a consistent transformation of variational particles has to be -/
+section
+variable {K : Type} [Field K] [LinearOrder K]
+
+/-- operations of `K[ε]/(ε²)`; comparisons look at the real part (an infinitesimal does not change
+    the branch taken) -/
+instance dualScalarO : ScalarO (Dual K) where
+  zero := ⟨0, 0⟩
+  one := ⟨1, 0⟩
+  add := Dual.add
+  sub := Dual.sub
+  mul := Dual.mul
+  div := Dual.div
+  neg a := ⟨-a.re, -a.eps⟩
+  ofNat n := ⟨(n : K), 0⟩
+  lt a b := decide (a.re < b.re)
+  le a b := decide (a.re ≤ b.re)
+
+/-- real particles `(m, x)` with their first-order variation `(dm, dx)` as dual numbers -/
+def dualOf (r : Row1 K) : Dual K × Dual K := (⟨r.m, r.dm⟩, ⟨r.x, r.dx⟩)
+
+theorem moveToHel_dual (rows : List (Row1 K)) :
+    (moveToHel (rows.map dualOf)).map (fun p => p.2.re) = (moveToHel (rows.map (fun r => (r.m, r.x)))).map (·.2) ∧
+    (moveToHel (rows.map dualOf)).map (fun p => p.2.eps) = moveToHelVar true (rows.map (·.dx)) ∧
+    (moveToHel (rows.map dualOf)).map (fun p => p.1) = rows.map (fun r => (⟨r.m, r.dm⟩ : Dual K)) := by
+  cases rows with
+  | nil => simp [moveToHel, moveToHelVar]
+  | cons a r =>
+    simp only [List.map_cons, moveToHel, moveToHelVar, dualOf, if_true, List.map_map, Function.comp_def]
+    refine ⟨?_, ?_, ?_⟩
+    · simp only [List.cons.injEq]
+      refine ⟨rfl, ?_⟩
+      apply List.map_congr_left; intro b _; rfl
+    · simp only [List.cons.injEq]
+      refine ⟨rfl, ?_⟩
+      apply List.map_congr_left; intro b _; rfl
+    · trivial
+
+theorem moveToHelVar_asfound (vars : List K) : moveToHelVar false vars = vars := by
+  cases vars <;> simp [moveToHelVar]
+
+end
+
+section
+variable {K : Type} [Field K] [LinearOrder K]
+
+instance d2ScalarO : ScalarO (D2 K) where
+  zero := ⟨0, 0, 0, 0⟩
+  one := ⟨1, 0, 0, 0⟩
+  add := D2.add
+  sub a b := ⟨a.c0 - b.c0, a.ca - b.ca, a.cb - b.cb, a.cab - b.cab⟩
+  mul := D2.mul
+  div := D2.div
+  neg a := ⟨-a.c0, -a.ca, -a.cb, -a.cab⟩
+  ofNat n := ⟨(n : K), 0, 0, 0⟩
+  lt a b := decide (a.c0 < b.c0)
+  le a b := decide (a.c0 ≤ b.c0)
+
+def d2Of (r : Row2 K) : D2 K × D2 K := (⟨r.m, r.ma, r.mb, r.ddm⟩, ⟨r.x, r.xa, r.xb, r.ddx⟩)
+
+/-- second order: the map `x_i − x_0` is linear, so the εa·εb parts are shifted the same way -/
+theorem moveToHel_d2 (rows : List (Row2 K)) :
+    (moveToHel (rows.map d2Of)).map (fun p => p.2.c0) = (moveToHel (rows.map (fun r => (r.m, r.x)))).map (·.2) ∧
+    (moveToHel (rows.map d2Of)).map (fun p => p.2.cab) = moveToHelVar true (rows.map (·.ddx)) ∧
+    (moveToHel (rows.map d2Of)).map (fun p => p.2.ca) = moveToHelVar true (rows.map (·.xa)) := by
+  cases rows with
+  | nil => simp [moveToHel, moveToHelVar]
+  | cons a r =>
+    simp only [List.map_cons, moveToHel, moveToHelVar, d2Of, if_true, List.map_map, Function.comp_def]
+    refine ⟨?_, ?_, ?_⟩ <;>
+    · simp only [List.cons.injEq]
+      refine ⟨rfl, ?_⟩
+      apply List.map_congr_left; intro b _; rfl
+
+end
 end RV.Frame
